@@ -644,6 +644,10 @@ func (w *World) Resync() error {
 	return err
 }
 
+// Tick runs the periodic routine of Run() itself (its function literal, exported from the working tree by the overlay:
+// resync, then the pod-IP sync).
+func (w *World) Tick() { w.Plugin.VerifRunTick() }
+
 // SyncPodIPs runs the pod-IP sync pass.
 func (w *World) SyncPodIPs() { w.Plugin.VerifSyncPodIPs() }
 
